@@ -180,11 +180,11 @@ def evaluate(c):
         if not all(close(G["pos"][i][d], S["pos"][i][d], tp) for i in range(c["nb"]) for d in range(3)):
             # one common factor?
             rat = [G["pos"][i][d] / S["pos"][i][d] for i in range(c["nb"]) for d in range(3) if abs(S["pos"][i][d]) > 0.01]
-            dec = 6 if dump else 3
-            unitmix = any(all(close(G["pos"][i][d], round(S["pos"][i][d] * k, dec), 1.5 * 10 ** -dec) for i in range(c["nb"]) for d in range(3))
-                          for k in (0.052917721, 0.1, 10.0, 18.897259886))
-            if (rat and max(rat) - min(rat) < 1e-3 * abs(rat[0]) and abs(rat[0] - 1) > 1e-3) or (not rat and unitmix):
-                key = (b + "-pos-wrong-scale") if b == "xyz" else pre + "pos-wrong-scale"
+            allzero = all(G["pos"][i][d] == 0 for i in range(c["nb"]) for d in range(3))
+            if rat and max(rat) - min(rat) < 1e-3 * abs(rat[0]) and abs(rat[0] - 1) > 1e-3:
+                key = (b if b == "xyz" else pre[:-1]) + "-pos-scaled-by-%.3g" % rat[0]
+            elif not rat and allzero:
+                key = (b if b == "xyz" else pre[:-1]) + "-pos-small-values-read-zero"
             elif c["nf"] > 1 and any(all(close(G["pos"][i][d], S2["pos"][i][d], tp) for i in range(c["nb"]) for d in range(3)) for S2 in fr):
                 key = pre + "frame-order"
             else:
